@@ -95,6 +95,7 @@ static int ka_freed[MAXA];
 void *vf_malloc(size_t n) {
     void *p = malloc(n);
     VF_ASSUME(p != NULL);
+    VF_CHECK(ka_n < MAXA, "more key buffers allocated than the harness's log holds");
     VF_ASSUME(ka_n < MAXA);
     ka_ptr[ka_n++] = p;
     return p;
@@ -260,6 +261,22 @@ static void vf_build(struct _map *m, map_elem *table, unsigned keymode, bool upd
     m->table = table; m->table_size = TS; m->flags = vf_flags(keymode, upd);
     m->dtor = with_dtor ? vf_dtor : NULL;
     g_with_dtor = with_dtor;
+#ifdef VF_SYM_ORDER
+    /* symmetry reduction (used at table size 8 only): key identities are interchangeable - a key is nothing but its
+     * home homes[id], an arbitrary value - so WLOG the i-th occupied slot holds key i.  Every other table is the image
+     * of such a one under a renaming of the keys; the operation's key is still any of the NK. */
+    int next_key = 0;
+    for (int s = 0; s < TS; s++) {
+        if (nondet_bool()) {
+            VF_ASSUME(next_key < NK);
+            table[s].key = keymode ? vf_heap_key(next_key) : keystr[next_key];
+            table[s].data = VAL(s);
+            next_key++;
+        } else {
+            table[s].key = NULL; table[s].data = NULL;
+        }
+    }
+#else
     for (int s = 0; s < TS; s++) {
         unsigned char k = nondet_uchar();
         if (k < NK) {
@@ -269,6 +286,7 @@ static void vf_build(struct _map *m, map_elem *table, unsigned keymode, bool upd
             table[s].key = NULL; table[s].data = NULL;
         }
     }
+#endif
 #ifdef CNT
     m->length = CNT;                      /* case split on the number of entries (keeps the growth test concrete) */
 #else
